@@ -294,9 +294,72 @@ def check_falsy(ld, res):
                           sig={'access': access, 'values': 'falsy'})
 
 
+def run_sched(spec, res):
+    """The cache shared by the copies that thread-prefetch workers use, under
+    the controlled scheduler: every schedule must deliver the first computation
+    of every example, in order, and compute each example once."""
+    import random
+    from .. import conc, detsched as D, concshards as cs
+    e = conc.env()
+    ld, core = e['ld'], e['core']
+    traced = dict(e['traced'])
+    traced[core.__file__] = tuple(traced[core.__file__]) + ('CacheDataset.', '_CacheWrapper.')
+    rng = rng_for(spec['seed'], PROPERTY, spec['name'])
+
+    def make_body(n, b, w, out):
+        def body(S):
+            calls = []
+
+            def fn(x):
+                S.preempt()
+                calls.append(x)
+                S.preempt()
+                return ('v', x, len(calls))
+            ds = ld.new(list(range(n))).map(fn).cache()
+            p = ds.prefetch(w, b, 't')
+            first = list(p)
+            second = list(p)
+            third = [ds[i - n] for i in range(n)]
+            out.update(first=first, second=second, third=third, calls=list(calls))
+        return body
+
+    def one(n, b, w, chooser, label):
+        out = {}
+        case = {'n': n, 'b': b, 'w': w, 'schedule': label, 'cache_below_pool_prefetch': True}
+        try:
+            D.run(chooser, traced, make_body(n, b, w, out))
+        except D.Deadlock as dl:
+            res.violation('deadlock', case, {'blocked': dl.args[0]}, sig={'access': 'sched'})
+            return
+        S = D.S
+        res.count('scheduled_executions')
+        res.count('scheduled_choice_points', S.nchoices)
+        res.case(('sched', n, b, w, tuple(c[1] for c in S.choices)), S.max_enabled >= 2)
+        sig = {'access': 'thread-prefetch', 'harness': 'scheduler'}
+        if not (out['first'] == out['second'] == out['third']):
+            res.violation('changed', case, out, sig=sig)
+        elif [v[1] for v in out['first']] != list(range(n)):
+            res.violation('wrong-example', case, out, sig=sig)
+        elif sorted(out['calls']) != list(range(n)):
+            res.violation('recomputed', case, out, sig=sig)
+    for n, b, w in ((3, 2, 2), (4, 2, 2), (4, 3, 3)):
+        for i in range(spec['sched_runs']):
+            seed = rng.randrange(1 << 30)
+            name = cs.CHOOSERS[i % len(cs.CHOOSERS)]
+            one(n, b, w, cs.chooser_for(name, random.Random(seed)), (name, seed))
+    dfs = D.DFS(2, max_runs=spec['sched_dfs_cap'])
+
+    def once(ch):
+        one(3, 2, 2, ch, 'dfs')
+    for _ in dfs.explore(once):
+        pass
+
+
 def shards(tier, seed):
     lim = LIMITS[tier]
-    out = []
+    out = [{'name': 'sched', 'what': 'sched',
+            'sched_runs': 60 if tier == 'quick' else 1500,
+            'sched_dfs_cap': 400 if tier == 'quick' else 20000}]
     J = 12
     for j in range(J):
         out.append({'name': f'exh{j}', 'what': 'exh', 'mod': J, 'rem': j, **lim})
@@ -307,6 +370,8 @@ def shards(tier, seed):
 
 
 def run_shard(spec, res):
+    if spec['what'] == 'sched':
+        return run_sched(spec, res)
     ld = import_lazy_dataset()
     install_mem()
     rng = rng_for(spec['seed'], PROPERTY, spec['name'])
@@ -341,7 +406,7 @@ def run_shard(spec, res):
 
 def finalize(res, tier):
     for k in ('accesses', 'uncached_accesses_after_threshold', 'eager_reads',
-              'memory_polls'):
+              'memory_polls', 'scheduled_executions'):
         if res.counters.get(k, 0) == 0:
             res.inconclusive_because(f'monitor {k} never evaluated')
     return {'exhaustive_history_length': LIMITS[tier]['L']}
